@@ -137,6 +137,7 @@ func runC26(c *Ctx) {
 	var finalErr error
 	c.Bubble(func() {
 		s := simrt.New(c.T)
+		s.EnableHB()
 		s.KeepTrace = c.Knobs["trace"] != ""
 		s.MaxSteps = 600000
 		if cs.Faulty {
@@ -218,6 +219,9 @@ func runC26(c *Ctx) {
 		})
 		v := s.Run()
 		c.FinishSim(s, v)
+		if v == nil {
+			c.ReportRaces(s)
+		}
 	})
 	if !c.Res.OK {
 		cs.History = hist
